@@ -336,7 +336,10 @@ def diff_trees(a, b, path=''):
     if kind in ('n', 'u', 'o', 'l') and len(ca) != len(cb):
         # an absent value where a scaled quantity (float) should be is also C10's business
         isf = kind == 'n' and any(isinstance(x[1], str) and x[0] == 'f' for x in ca + cb)
-        return [(path + kind + ('#f' if isf else '#'), show(a), show(b))]
+        # a list on which the implementation reports fewer elements than were transmitted: the values of
+        # the missing elements are not reported, which is C04's business as well as C14's
+        short = kind == 'l' and len(ca) < len(cb)
+        return [(path + kind + ('#f' if isf else '#<' if short else '#'), show(a), show(b))]
     out = []
     if len(ca) != len(cb):
         out.append((path + kind + '#', show(a), show(b)))
@@ -360,6 +363,8 @@ def attribute(path):
         return props
     if path.endswith('#f'):
         return {'C11', 'C10'}
+    if path.endswith('#<'):
+        return {'C14', 'C04'}
     if path.endswith('#'):
         k = path[-2]
         return {'n': {'C11'}, 'u': {'C12'}, 'l': {'C14'}, 'o': {'C14'} if 'v' in path else {'C07'},
